@@ -3,8 +3,12 @@ package main
 import (
 	"encoding/json"
 	"fmt"
+	"regexp"
 	"strings"
 )
+
+// a line break inside a literal with the blanks after it
+var reLitBreak = regexp.MustCompile(`[\n\r][ \t\n\r]*`)
 
 func init() {
 	register("C09", "exploration", checkC09)
@@ -63,6 +67,13 @@ func checkC09(c *Ctx) {
 			return
 		}
 		t.Content = strings.ReplaceAll(t.Content, "E", "é")
+		for strings.Contains(t.Content, "H") {
+			t.Content = strings.Replace(t.Content, "H", []string{"#", "//", "# ", "//x"}[len(texts)%4], 1)
+		}
+		// a line break inside the quotes, in rotating shapes
+		for strings.Contains(t.Content, "N") {
+			t.Content = strings.Replace(t.Content, "N", []string{"\n", "\n    ", "\r\n  ", "\n\n\t ", " \n"}[len(texts)%5], 1)
+		}
 		texts = append(texts, t)
 	}
 	// every family member appears as a single-part text in a rotating origin;
@@ -167,9 +178,16 @@ func checkC09(c *Ctx) {
 			if label == "" {
 				label = cmdArg[w.cmd]
 			}
-			parts := w.it.parts
-			if w.it.origin == "format" || w.it.origin == "inlineformat" {
-				ft, err := realFormat(strings.Join(parts, "\n"), "")
+			parts := []string{}
+			isFmt := w.it.origin == "format" || w.it.origin == "inlineformat"
+			fmtin := ""
+			if isFmt {
+				den := make([]string, len(w.it.parts))
+				for i, p := range w.it.parts {
+					den[i] = reLitBreak.ReplaceAllString(p, " ")
+				}
+				fmtin = strings.Join(den, "\n")
+				ft, err := realFormat(fmtin, "")
 				if err != nil {
 					c.Fatal("real FormatText failed: %v", err)
 					return
@@ -177,7 +195,7 @@ func checkC09(c *Ctx) {
 				parts = strings.Split(ft, "\n")
 			}
 			found, lines := defLines(pa, label)
-			recs = append(recs, map[string]interface{}{"id": fmt.Sprintf("%s#%d", fid, k), "parts": parts, "type": w.it.typ,
+			recs = append(recs, map[string]interface{}{"id": fmt.Sprintf("%s#%d", fid, k), "parts": parts, "written": w.it.parts, "fmt": isFmt, "fmtin": fmtin, "type": w.it.typ,
 				"origin": w.it.origin, "found": found && label != "", "lines": lines})
 		}
 		if base == 0 {
@@ -211,7 +229,7 @@ func checkC09(c *Ctx) {
 	}
 	c.Cov("evaluations", int64(len(recs)))
 	c.Cov("distinct_nontrivial", int64(len(recs)))
-	c.CovSet("rule", "every content of length <= 3 over {$ \\ 0 a \\n multi-byte} x 4 string types (enumerated by TLC from GenText.tla) as single-part text in rotating origins (inline, text statement, poryswitch case matched / by default, format() in both positions), plus seeded multi-part literals; a case is one text, distinct by construction")
+	c.CovSet("rule", "every content of length <= 3 (4 when thorough) over {$ \\ 0 a \\n multi-byte, a line break inside the quotes, a comment opener} x 4 string types (enumerated by TLC from GenText.tla) as single-part text in rotating origins (inline, text statement, poryswitch case matched / by default, format() in both positions), plus seeded multi-part literals; a case is one text, distinct by construction")
 	c.Cov("states", states)
 	c.CovSet("exhaustive_single_part_contents", len(texts))
 }
